@@ -5,7 +5,10 @@
 //!   pattern  level  message  target  module?  file?  line?  thread-name?  mdc(k;v,…)
 //! observation (one field; parts separated by a single space):
 //!   outcome  ops  debug-profile  pid  tid  masked  dates(fmt;utc;render-ok;probe-ok;text,…)  local-offset-seconds
-//! outcome = ok | err | new-only | PANIC:new | PANIC:encode | unstable-date
+//! outcome = ok | err | new-only | PANIC:new | PANIC:encode
+//! `masked` is the constant `0` (kept for the decoders): the compared encode runs under a fixed
+//! instant (hook `verif_hooks::set_now`, read by the pattern encoder's date formatter) and the date
+//! texts are chrono's renderings of THE SAME instant, so every digit of every date is compared.
 //! ops     = items joined by `,` : `T<string>` text run, `S<fg>/<bg>/<intense>` set_style; `-` when
 //!           nothing was encoded to the end.
 //! The environment facts after the ops are INPUTS of the model (what chrono renders for each date
@@ -146,11 +149,7 @@ impl io::Write for FailSink {
 
 impl encode::Write for FailSink {}
 
-fn mask_digits(s: &str) -> String {
-    s.chars().map(|c| if c.is_ascii_digit() { '#' } else { c }).collect()
-}
-
-fn render_items(items: &[Item], masked: bool) -> String {
+fn render_items(items: &[Item]) -> String {
     let mut out: Vec<String> = vec![];
     for it in items {
         match it {
@@ -159,10 +158,7 @@ fn render_items(items: &[Item], masked: bool) -> String {
                     continue;
                 }
                 match std::str::from_utf8(d) {
-                    Ok(s) => {
-                        let s = if masked { mask_digits(s) } else { s.to_owned() };
-                        out.push(format!("T{}", enc_str(&s)))
-                    }
+                    Ok(s) => out.push(format!("T{}", enc_str(s))),
                     Err(_) => out.push(format!("BADUTF8{}", enc_bytes(d))),
                 }
             }
@@ -391,15 +387,18 @@ pub fn date_formats(pattern: &str) -> Vec<String> {
     out
 }
 
-/// what chrono says about one format: does `write!("{}", now.format(fmt))` succeed, and the text
-fn chrono_render(fmt: &str, utc: bool) -> (bool, String) {
+/// what chrono says about one format at the instant `at` = (unix seconds, nanoseconds): does
+/// `write!("{}", t.format(fmt))` succeed, and the text
+fn chrono_render(fmt: &str, utc: bool, at: (i64, u32)) -> (bool, String) {
+    use chrono::TimeZone;
     use std::fmt::Write;
     let r = guarded(AssertUnwindSafe(|| {
         let mut t = String::new();
+        let now = chrono::Utc.timestamp_opt(at.0, at.1).single().expect("instant table");
         let ok = if utc {
-            write!(t, "{}", chrono::Utc::now().format(fmt)).is_ok()
+            write!(t, "{}", now.format(fmt)).is_ok()
         } else {
-            write!(t, "{}", chrono::Local::now().format(fmt)).is_ok()
+            write!(t, "{}", now.with_timezone(&chrono::Local).format(fmt)).is_ok()
         };
         (ok, t)
     }));
@@ -420,15 +419,139 @@ pub fn probe_ok(fmt: &str) -> bool {
     .unwrap_or(false)
 }
 
-fn render_all(fmts: &[String]) -> Vec<(String, bool, bool, String)> {
+fn render_all(fmts: &[String], at: (i64, u32)) -> Vec<(String, bool, bool, String)> {
     let mut v = vec![];
     for f in fmts {
         for utc in [false, true] {
-            let (ok, t) = chrono_render(f, utc);
+            let (ok, t) = chrono_render(f, utc, at);
             v.push((f.clone(), utc, ok, t));
         }
     }
     v
+}
+
+// ------------------------------------------------------------------------------------------------
+// the clock of a case. The compared encode runs under a FIXED instant (`verif_hooks::set_now`, which
+// the pattern encoder's date formatter reads); the expected date texts are chrono's renderings of
+// the same instant, so they are compared digit for digit. The instant is chosen by a hash of the
+// case's pattern and message (no case field); the history preludes run under a different one.
+// (UTC civil time, nanoseconds) — the local zone of the exec process is UTC-05:45:
+// ------------------------------------------------------------------------------------------------
+pub const INSTANTS: &[((i64, i64, i64, i64, i64, i64), u32, &str, &str)] = &[
+    // (UTC y m d h mi s), nanos, the same instant in UTC, in the local zone (`%Y-%m-%d %H:%M:%S%.f`)
+    ((2024, 3, 15, 12, 34, 56), 123_456_789, "2024-03-15 12:34:56.123456789", "2024-03-15 06:49:56.123456789"),
+    ((2021, 7, 4, 3, 2, 1), 5, "2021-07-04 03:02:01.000000005", "2021-07-03 21:17:01.000000005"),
+    // one second before local midnight (and the end of a month)
+    ((2023, 7, 1, 5, 44, 59), 500_000_000, "2023-07-01 05:44:59.500", "2023-06-30 23:59:59.500"),
+    // one second before UTC midnight, whole second (`%.f` renders nothing)
+    ((2022, 10, 31, 23, 59, 59), 0, "2022-10-31 23:59:59", "2022-10-31 18:14:59"),
+    // the last nanosecond of a year in UTC
+    ((2023, 12, 31, 23, 59, 59), 999_999_999, "2023-12-31 23:59:59.999999999", "2023-12-31 18:14:59.999999999"),
+    // the last second of a year in the local zone (UTC is already in the next year)
+    ((2025, 1, 1, 5, 44, 59), 120_000, "2025-01-01 05:44:59.000120", "2024-12-31 23:59:59.000120"),
+    // leap day in the local zone only, and in both zones
+    ((2024, 3, 1, 2, 0, 0), 120_000_000, "2024-03-01 02:00:00.120", "2024-02-29 20:15:00.120"),
+    ((2024, 2, 29, 12, 0, 0), 0, "2024-02-29 12:00:00", "2024-02-29 06:15:00"),
+    // before 1970 (negative unix time)
+    ((1969, 12, 31, 23, 59, 58), 250_000_000, "1969-12-31 23:59:58.250", "1969-12-31 18:14:58.250"),
+];
+
+/// unix seconds of a UTC civil time (proleptic Gregorian calendar; days-from-civil)
+fn unix_secs(t: (i64, i64, i64, i64, i64, i64)) -> i64 {
+    let (y, m, d, h, mi, s) = t;
+    let y2 = if m <= 2 { y - 1 } else { y };
+    let era = y2.div_euclid(400);
+    let yoe = y2 - era * 400;
+    let doy = (153 * (if m > 2 { m - 3 } else { m + 9 }) + 2) / 5 + d - 1;
+    let doe = yoe * 365 + yoe / 4 - yoe / 100 + doy;
+    (era * 146097 + doe - 719468) * 86400 + h * 3600 + mi * 60 + s
+}
+
+pub fn instant(i: usize) -> (i64, u32) {
+    let e = &INSTANTS[i % INSTANTS.len()];
+    (unix_secs(e.0), e.1)
+}
+
+/// which instant a case is encoded under: FNV-1a of pattern and message
+pub fn instant_index(pattern: &str, message: &str) -> usize {
+    let mut h: u64 = 0xcbf29ce484222325;
+    for b in pattern.bytes().chain(std::iter::once(0xff)).chain(message.bytes()) {
+        h ^= b as u64;
+        h = h.wrapping_mul(0x100000001b3);
+    }
+    (h % INSTANTS.len() as u64) as usize
+}
+
+/// start-up check of the instant table against chrono, in both zones
+fn assert_instant_table() {
+    for (i, e) in INSTANTS.iter().enumerate() {
+        let utc = chrono_render("%Y-%m-%d %H:%M:%S%.f", true, instant(i));
+        let local = chrono_render("%Y-%m-%d %H:%M:%S%.f", false, instant(i));
+        if utc != (true, e.2.to_owned()) || local != (true, e.3.to_owned()) {
+            eprintln!("instant {}: chrono renders {:?} / {:?}, the table says {} / {}", i, utc, local, e.2, e.3);
+            std::process::exit(3);
+        }
+    }
+}
+
+fn set_clock(at: Option<(i64, u32)>) {
+    match at {
+        Some(at) => log4rs::verif_hooks::set_now(Some(std::sync::Arc::new(move || Some(at)))),
+        None => log4rs::verif_hooks::set_now(None),
+    }
+}
+
+/// the MDC keys a pattern mentions (generous scan like `date_formats`; instrumentation only: the
+/// history preludes set these keys to stale values)
+fn mdc_keys(pattern: &str) -> Vec<String> {
+    fn collect(ps: &[MP], out: &mut Vec<String>) {
+        for p in ps {
+            if let MP::Arg(name, args) = p {
+                if name == "X" || name == "mdc" {
+                    if let Some(a) = args.first() {
+                        let k: String = a.iter().map(|q| if let MP::Text(t) = q { t.as_str() } else { "" }).collect();
+                        if !out.contains(&k) {
+                            out.push(k);
+                        }
+                    }
+                }
+                for a in args {
+                    collect(a, out);
+                }
+            }
+        }
+    }
+    let mut out = vec![];
+    // (recursive scan: kept away from the deep-nesting family like `date_formats`)
+    if !pattern.contains("{X") && !pattern.contains("{mdc") {
+        return out;
+    }
+    let mut sc = Scan { s: pattern.chars().collect(), i: 0, underscore: false };
+    let mut ps = vec![];
+    while let Some(p) = sc.next() {
+        ps.push(p);
+    }
+    collect(&ps, &mut out);
+    out
+}
+
+/// a second pattern for the history preludes: every record field and the given MDC keys
+fn other_pattern(keys: &[String]) -> String {
+    let mut p = String::from("{X(k)}{m}{l}{t}{M}{f}{L}{d}{d(%s%.f)(utc)}");
+    for k in keys {
+        if k.is_empty() {
+            continue;
+        }
+        p.push_str("{X(");
+        for c in k.chars() {
+            if "{}()\\".contains(c) {
+                p.push('\\');
+            }
+            p.push(c);
+        }
+        p.push_str(")(other-default)}");
+    }
+    p
 }
 
 // ------------------------------------------------------------------------------------------------
@@ -545,29 +668,86 @@ fn run_in_thread(c: &Case) -> String {
     let debug = cfg!(debug_assertions);
     let pid = std::process::id();
     let tid = thread_id::get();
-    let tail = |masked: bool, dates: &[(String, bool, bool, String)]| -> String {
+    let tail = |dates: &[(String, bool, bool, String)]| -> String {
         let ds: Vec<String> = dates
             .iter()
             .map(|(f, utc, ok, t)| {
-                let t = if masked { mask_digits(t) } else { t.clone() };
-                format!("{};{};{};{};{}", enc_str(f), enc_bool(*utc), enc_bool(*ok), enc_bool(probe_ok(f)), enc_str(&t))
+                format!("{};{};{};{};{}", enc_str(f), enc_bool(*utc), enc_bool(*ok), enc_bool(probe_ok(f)), enc_str(t))
             })
             .collect();
-        format!("{} {} {} {} {} {}", enc_bool(debug), pid, tid, enc_bool(masked), enc_list(",", &ds), local_offset_secs())
+        // the fourth fact (`masked`) is the constant 0: nothing is masked any more
+        format!("{} {} {} {} {} {}", enc_bool(debug), pid, tid, enc_bool(false), enc_list(",", &ds), local_offset_secs())
     };
     let fmts = date_formats(&c.pattern);
+    // the instant of the compared encode, and a different one for everything that runs before it
+    let at_idx = instant_index(&c.pattern, &c.message);
+    let at = instant(at_idx);
+    let at_prelude = instant(at_idx + 1 + c.message.len() % (INSTANTS.len() - 1));
     let encoder = match guarded(AssertUnwindSafe(|| PatternEncoder::new(&c.pattern))) {
         Ok(e) => e,
-        Err(_) => return format!("PANIC:new - {}", tail(false, &render_all(&fmts))),
+        Err(_) => return format!("PANIC:new - {}", tail(&render_all(&fmts, at))),
     };
     if !widths_sane(&c.pattern) {
-        return format!("new-only - {}", tail(false, &render_all(&fmts)));
+        return format!("new-only - {}", tail(&render_all(&fmts, at)));
+    }
+    set_clock(Some(at_prelude));
+    // history preludes 1: SUCCESSFUL encodes of DIFFERENT records (level, target, module, file, line,
+    // message) under a different MDC (every key of the case and of the pattern with a stale value;
+    // then every key absent; then the case's keys absent and the pattern's other keys present), at a
+    // different instant, by this encoder and — alternating — by an encoder of another pattern on the
+    // same thread; whatever they leave behind must not show in the compared encode
+    {
+        let mut keys: Vec<String> = c.mdc.iter().map(|kv| kv.0.clone()).collect();
+        for k in mdc_keys(&c.pattern) {
+            if !keys.contains(&k) {
+                keys.push(k);
+            }
+        }
+        let other = guarded(AssertUnwindSafe(|| PatternEncoder::new(&other_pattern(&keys)))).ok();
+        let stale_msg = format!("STALE-message<{}>", c.message);
+        let stale_target = format!("STALE-target<{}>", c.target);
+        for round in 0..3u32 {
+            log_mdc::clear();
+            for k in &keys {
+                let own = c.mdc.iter().find(|kv| &kv.0 == k);
+                match (round, own) {
+                    (0, Some(kv)) => {
+                        log_mdc::insert(k.clone(), format!("STALE-{}", kv.1));
+                    }
+                    (0, None) | (2, None) => {
+                        log_mdc::insert(k.clone(), "STALE-absent-in-the-case".to_owned());
+                    }
+                    _ => {}
+                }
+            }
+            let level = level_of(((c.level as u32 + round) % 5 + 1) as u8);
+            let module = if c.module.is_some() && round == 1 { None } else { Some("stale::module") };
+            let file = if c.file.is_some() && round == 1 { None } else { Some("stale/file.rs") };
+            let line = if c.line.is_some() && round == 1 { None } else { Some(c.line.unwrap_or(0).wrapping_add(1000 + round)) };
+            for enc in [Some(&encoder), other.as_ref(), Some(&encoder)].into_iter().flatten() {
+                let mut cap = Cap::default();
+                let _ = guarded(AssertUnwindSafe(|| {
+                    enc.encode(
+                        &mut cap,
+                        &log::Record::builder()
+                            .level(level)
+                            .target(&stale_target)
+                            .module_path(module)
+                            .file(file)
+                            .line(line)
+                            .args(format_args!("{}", stale_msg))
+                            .build(),
+                    )
+                    .is_ok()
+                }));
+            }
+        }
     }
     log_mdc::clear();
     for (k, v) in &c.mdc {
         log_mdc::insert(k.clone(), v.clone());
     }
-    // history preludes: the same encoder, on this thread, into sinks that fail after 0, 1, 3, …
+    // history preludes 2: the same encoder, on this thread, into sinks that fail after 0, 1, 3, …
     // bytes, with a different message; whatever they leave behind must not show in the encode below
     let stale = format!("STALE<{}>", c.message);
     for budget in [0usize, 1, 3, 7, 15, 40, 100] {
@@ -588,65 +768,33 @@ fn run_in_thread(c: &Case) -> String {
                 .is_ok()
         }));
     }
-    let encode_once = || -> (Result<bool, String>, Cap) {
-        let mut cap = Cap::default();
-        let r = guarded(AssertUnwindSafe(|| {
-            // `format_args!` must live in the same expression as the record that borrows it
-            encoder
-                .encode(
-                    &mut cap,
-                    &log::Record::builder()
-                        .level(level_of(c.level))
-                        .target(&c.target)
-                        .module_path(c.module.as_deref())
-                        .file(c.file.as_deref())
-                        .line(c.line)
-                        .args(format_args!("{}", c.message))
-                        .build(),
-                )
-                .is_ok()
-        }));
-        (r, cap)
+    // the compared encode, under the case's instant; the date facts are chrono's renderings of the
+    // same instant (not of `now()`): exact comparison, no masking, no retries
+    set_clock(Some(at));
+    let mut cap = Cap::default();
+    let r = guarded(AssertUnwindSafe(|| {
+        // `format_args!` must live in the same expression as the record that borrows it
+        encoder
+            .encode(
+                &mut cap,
+                &log::Record::builder()
+                    .level(level_of(c.level))
+                    .target(&c.target)
+                    .module_path(c.module.as_deref())
+                    .file(c.file.as_deref())
+                    .line(c.line)
+                    .args(format_args!("{}", c.message))
+                    .build(),
+            )
+            .is_ok()
+    }));
+    set_clock(None);
+    let described = match r {
+        Err(_) => "PANIC:encode -".to_owned(),
+        Ok(false) => format!("err {}", render_items(&cap.items)),
+        Ok(true) => format!("ok {}", render_items(&cap.items)),
     };
-    let describe = |r: &Result<bool, String>, cap: &Cap, masked: bool| -> String {
-        match r {
-            Err(_) => "PANIC:encode -".to_owned(),
-            Ok(false) => format!("err {}", render_items(&cap.items, masked)),
-            Ok(true) => format!("ok {}", render_items(&cap.items, masked)),
-        }
-    };
-    let mut result = String::new();
-    // Exact mode: the date texts rendered before and after the encode are equal, so the encode saw
-    // the same texts. Otherwise (sub-second formats) digits are masked; variable-length fractions
-    // (`%+`, `%.f`) make a render shorter once in a thousand, so masked mode additionally wants two
-    // consecutive encodes with equal masked output and equal masked facts, and retries otherwise.
-    for attempt in 0..8 {
-        let before = render_all(&fmts);
-        let (r, cap) = encode_once();
-        let after = render_all(&fmts);
-        if before == after {
-            result = format!("{} {}", describe(&r, &cap, false), tail(false, &before));
-            break;
-        }
-        if attempt < 1 {
-            continue; // a second boundary may have passed: try once more before masking
-        }
-        let masked_eq = before.len() == after.len()
-            && before
-                .iter()
-                .zip(after.iter())
-                .all(|(a, b)| a.0 == b.0 && a.1 == b.1 && a.2 == b.2 && mask_digits(&a.3) == mask_digits(&b.3));
-        let (r2, cap2) = encode_once();
-        let d1 = describe(&r, &cap, true);
-        let d2 = describe(&r2, &cap2, true);
-        if masked_eq && d1 == d2 {
-            result = format!("{} {}", d1, tail(true, &before));
-            break;
-        }
-        if attempt == 7 {
-            result = format!("unstable-date - {}", tail(false, &before));
-        }
-    }
+    let result = format!("{} {}", described, tail(&render_all(&fmts, at)));
     log_mdc::clear();
     result
 }
@@ -689,7 +837,7 @@ pub fn run_fork_case(c: &Case) -> String {
                 .is_ok()
         }));
         let ops = match r {
-            Ok(true) => render_items(&cap.items, false),
+            Ok(true) => render_items(&cap.items),
             Ok(false) => "err".to_owned(),
             Err(_) => "PANIC".to_owned(),
         };
@@ -768,6 +916,7 @@ pub fn process_init() {
     TABLE_CHECKED.call_once(|| {
         set_harness_zone();
         assert_char_table();
+        assert_instant_table();
     });
 }
 
@@ -1092,7 +1241,8 @@ pub fn gen(rng: &mut Rng, n: usize, thorough: bool, emit: &mut dyn FnMut(String)
         }
     }
     // 4c. deep nesting, run in a child process (a stack overflow aborts the process)
-    let depths: &[usize] = if thorough { &[10, 100, 1000, 2000, 3000, 10000, 100000, 1000000] } else { &[10, 100, 1000, 3000, 20000] };
+    //     (63..=66: around the parser's nesting limit MAX_DEPTH = 64)
+    let depths: &[usize] = if thorough { &[10, 63, 64, 65, 66, 100, 1000, 2000, 3000, 10000, 100000, 1000000] } else { &[10, 63, 64, 65, 66, 100, 1000, 3000, 20000] };
     for &n in depths {
         for shape in ["closed", "h", "open"] {
             emit(format!("{}\tdeep:{}:{}", Case::simple("").line(), shape, n));
